@@ -1434,6 +1434,9 @@ pub struct C04CallsCase {
     /// call indices before which the world value is moved to another address
     #[serde(default)]
     pub moves: Vec<u8>,
+    /// the calls alternate between two worlds
+    #[serde(default)]
+    pub two_worlds: bool,
 }
 
 impl Prop for C04Calls {
@@ -1445,7 +1448,7 @@ impl Prop for C04Calls {
         "C04"
     }
     fn rule(&self) -> &'static str {
-        "plans (nested batches with custom / MultiDispatcher controllers, thread-local systems incl. inside batches) x a generated sequence of 1..8 calls drawn from dispatch / dispatch_par / dispatch_seq / dispatch_thread_local / RunNow::run_now on ONE dispatcher x pool size 1..16 or no pool attached at all (rayon's default) x per-system delays; oracle after every call: counter of every ordinary system == number of calls so far that run ordinary systems, every top-level thread-local counter == number of dispatch + dispatch_thread_local calls, inner systems == enclosing batch runs x its dispatch count, nothing is left borrowed; before 1/4 of the histories' calls the world value is moved to another address; 5/16 of the histories arm one or two calls with a system that panics (caught): counting restarts after such a call and every later call must again run everything exactly once; non-trivial = >= 3 calls of >= 2 different kinds on a plan with >= 2 stages or a batch; distinct = case hash"
+        "plans (nested batches with custom / MultiDispatcher controllers, thread-local systems incl. inside batches) x a generated sequence of 1..8 calls drawn from dispatch / dispatch_par / dispatch_seq / dispatch_thread_local / RunNow::run_now on ONE dispatcher x pool size 1..16 or no pool attached at all (rayon's default) x per-system delays; oracle after every call: counter of every ordinary system == number of calls so far that run ordinary systems, every top-level thread-local counter == number of dispatch + dispatch_thread_local calls, inner systems == enclosing batch runs x its dispatch count, nothing is left borrowed; before 1/4 of the histories' calls the world value is moved to another address; 3/16 of the histories alternate between two worlds; 5/16 of the histories arm one or two calls with a system that panics (caught): counting restarts after such a call and every later call must again run everything exactly once; non-trivial = >= 3 calls of >= 2 different kinds on a plan with >= 2 stages or a batch; distinct = case hash"
     }
     fn gen(&self, src: &mut Src) -> C04CallsCase {
         // 0: no pool is attached, the dispatcher makes rayon's default pool for itself
@@ -1476,6 +1479,7 @@ impl Prop for C04Calls {
                 moves.push(src.pick(n) as u8);
             }
         }
+        let two_worlds = src.chance(3, 16);
         C04CallsCase {
             plan,
             calls,
@@ -1483,6 +1487,7 @@ impl Prop for C04Calls {
             jitter,
             faults,
             moves,
+            two_worlds,
         }
     }
     fn check(&self, case: &C04CallsCase, lane: usize, st: &mut Stats) -> Result<(), Fail> {
@@ -1502,10 +1507,17 @@ impl Prop for C04Calls {
             b.ctx.jitter_run[i].store((case.jitter.get(i).cloned().unwrap_or(0) % 4) as u32, SeqCst);
         }
         let mut world = Box::new(fresh_world());
+        let mut other_world = Box::new(fresh_world());
+        if case.two_worlds {
+            st.class("calls_alternate_between_two_worlds");
+        }
         b.ctx.reset_counters();
         let (mut ord, mut tl) = (0u32, 0u32);
         let mut recovered = 0;
         for (k, entry) in case.calls.iter().enumerate() {
+            if case.two_worlds {
+                std::mem::swap(&mut world, &mut other_world);
+            }
             if case.moves.iter().any(|m| *m as usize == k) {
                 // a World is an ordinary movable value: the new allocation exists before the old one
                 // is freed, so the address really changes
@@ -1597,6 +1609,109 @@ impl Prop for C04Calls {
             let mut c = case.clone();
             c.moves.remove(i);
             out.push(c);
+        }
+        out
+    }
+}
+
+
+// ------------------------------------------------------------------------------------------------
+// C04: two dispatchers that share one pool and are dispatched at the same time from two threads
+
+pub struct C04Two {
+    pub cfg: GenCfg,
+}
+
+#[derive(Clone, Debug, Serialize, Deserialize)]
+pub struct C04TwoCase {
+    pub a: Plan,
+    pub b: Plan,
+    pub threads: u8,
+    pub rounds: u8,
+}
+
+impl Prop for C04Two {
+    type Case = C04TwoCase;
+    fn name(&self) -> &'static str {
+        "c04-two-dispatchers"
+    }
+    fn property(&self) -> &'static str {
+        "C04"
+    }
+    fn rule(&self) -> &'static str {
+        "two generated plans built into two dispatchers that share ONE pool (1..8 threads), each with a world of its own, dispatched 1..6 times at the same time from two threads (each dispatcher is built and used on its own thread); oracle: no panic, afterwards every counter of both dispatchers equals its dispatch count x inner dispatch counts and nothing is left borrowed in either world; non-trivial = both plans have >= 2 systems; distinct = case hash"
+    }
+    fn stream_len(&self) -> usize {
+        500
+    }
+    fn max_shrink_iters(&self) -> u32 {
+        60
+    }
+    fn gen(&self, src: &mut Src) -> C04TwoCase {
+        let threads = [1u8, 2, 3, 4, 8][src.pick(5)];
+        let rounds = 1 + src.pick(6) as u8;
+        let a = gen_plan(src, &self.cfg);
+        let b = gen_plan(src, &self.cfg);
+        C04TwoCase { a, b, threads, rounds }
+    }
+    fn check(&self, case: &C04TwoCase, lane: usize, st: &mut Stats) -> Result<(), Fail> {
+        let threads = case.threads.clamp(1, 16) as usize;
+        let rounds = case.rounds.clamp(1, 8) as u32;
+        let tp = pool(lane, threads);
+        // start line with a time-out: a side that fails to build must not leave the other one waiting
+        let arrived = AtomicUsize::new(0);
+        let run_one = |plan: &Plan, which: &str| -> Result<usize, Fail> {
+            let mut b = build_plan(plan, tp.clone(), &BuildOpts::default())
+                .map_err(|e| Fail::keyed("build-or-identify", e))?;
+            let flat = b.flat.clone();
+            let world = fresh_world();
+            b.ctx.reset_counters();
+            arrived.fetch_add(1, SeqCst);
+            let t0 = std::time::Instant::now();
+            while arrived.load(SeqCst) < 2 && t0.elapsed() < Duration::from_secs(5) {
+                std::thread::yield_now();
+            }
+            for k in 0..rounds {
+                let out = run_call(&mut b, &world, Entry::Dispatch, None, Duration::from_millis(3000));
+                if let Some(p) = &out.panic {
+                    return Err(Fail::keyed(
+                        "panic",
+                        format!("dispatcher {} dispatch {} panicked: {}", which, k, describe_panic(p)),
+                    ));
+                }
+            }
+            check_counts(&flat, &b.ctx.runs(), &expected_runs(&flat, rounds, rounds))
+                .map_err(|f| Fail::new(format!("dispatcher {} (sharing its pool with a second dispatcher that runs at the same time): {}", which, f.msg)))?;
+            check_all_free(&world)?;
+            Ok(flat.sys.len())
+        };
+        let (ra, rb) = std::thread::scope(|sc| {
+            let ha = sc.spawn(|| {
+                catch_unwind(AssertUnwindSafe(|| run_one(&case.a, "A")))
+            });
+            let rb = catch_unwind(AssertUnwindSafe(|| run_one(&case.b, "B")));
+            (ha.join().expect("harness: thread A"), rb)
+        });
+        let unwrap = |r: std::thread::Result<Result<usize, Fail>>| -> Result<usize, Fail> {
+            match r {
+                Ok(x) => x,
+                Err(p) => Err(Fail::new(format!("harness thread panicked: {}", panic_msg(&p)))),
+            }
+        };
+        let na = unwrap(ra)?;
+        let nb = unwrap(rb)?;
+        if na >= 2 && nb >= 2 {
+            st.nontrivial(case, || json!({"systems": [na, nb], "rounds": rounds}));
+        }
+        Ok(())
+    }
+    fn simplify(&self, case: &C04TwoCase) -> Vec<C04TwoCase> {
+        let mut out = vec![];
+        for p in simplify_plan(&case.a) {
+            out.push(C04TwoCase { a: p, ..case.clone() });
+        }
+        for p in simplify_plan(&case.b) {
+            out.push(C04TwoCase { b: p, ..case.clone() });
         }
         out
     }
